@@ -388,6 +388,40 @@ def namespace_scenarios():
         w.dispose()
         scratch.drop(root)
 
+    # ---- (h) a task with `~pattern` inputs inside the shared pipeline: wired in every member, whatever namespace the member mounts it under
+    desc4 = {'name': 'mc-pattern', 'tasks': {'Px': {'name': 'part_x', 'params': [], 'inputs': [], 'data': 'json'}, 'Py': {'name': 'part_y', 'params': [], 'inputs': [], 'data': 'json'},
+                                              'Agg': {'name': 'agg', 'params': [], 'inputs': [{'how': 'pattern', 'ref': '~part_.*'}], 'data': 'json'},
+                                              'Rep': {'name': 'rep', 'params': [P('pr', default=1)], 'inputs': [bc('Agg')], 'data': 'json'}},
+             'contexts': {'mb': {'kind': 'dict', 'data': {}, 'for_namespaces': {'b': {'pr': 2}}}},
+             'configs': {'leaf': {'medium': 'json', 'file': 'leaf.json', 'tasks': ['Px', 'Py', 'Agg', 'Rep'], 'values': {}},
+                         'ma': {'medium': 'json', 'file': 'ma.json', 'tasks': [], 'values': {}, 'uses': [{'config': 'leaf', 'as': 'a'}]},
+                         'mb': {'medium': 'json', 'file': 'mb.json', 'tasks': [], 'values': {}, 'uses': [{'config': 'leaf', 'as': 'b'}]}},
+             'root': 'ma', 'variants': {'v': []}}
+    for order in (('ma', 'mb'), ('mb', 'ma')):
+        root = scratch.fresh('c13n')
+        w = worlds.World(desc4, root)
+        try:
+            mc = MultiChain([w.make_config('v', base_dir=root + '/data', root=r) for r in order])
+            for member, ns in (('ma', 'a'), ('mb', 'b')):
+                ch = mc[member]
+                agg = ch[f'{ns}::agg']
+                ins = sorted(n.split('::')[-1] for n, t in agg.input_tasks.items())
+                req = sorted(t.fullname.split('::')[-1] for t in ch.required_tasks(f'{ns}::rep'))
+                term = w.decode(ch[f'{ns}::rep'].value, 'json')['term']
+                got_inputs = sorted(k.lstrip('~').split('::')[-1] for k in term['i']['Agg']['i'])   # (a shared object carries the input names of the member wired last)
+                if ins != ['part_x', 'part_y'] or req != ['agg', 'part_x', 'part_y'] or got_inputs != ['part_x', 'part_y']:
+                    out.append(('pattern inputs of a shared task are not wired in every member', f'members {order}, member {member}: inputs {ins}, required tasks of rep {req}, value computed from {got_inputs}'))
+                    break
+            mc.force('part_x')
+            fb = forced_names(mc['mb'])
+            if fb != ['b::agg', 'b::part_x', 'b::rep']:
+                out.append(('forcing through the MultiChain does not mark exactly the task and everything downstream of it', f'members {order}: force(part_x): forced in `mb` {fb}'))
+        except Exception as e:  # noqa
+            out.append(('MultiChain over a pipeline with pattern inputs cannot be built / evaluated', f'members {order}: {type(e).__name__}: {e}'))
+        finally:
+            w.dispose()
+            scratch.drop(root)
+
     # ---- (e) members with their own data directories: storage locations as for the standalone chains
     root = scratch.fresh('c13n')
     w = worlds.World(desc, root)
